@@ -391,7 +391,7 @@ func countDiffsWithInternalGaps(seq1, seq2 []uint8, selectedSites []bool, weight
 		firstgaps1 = firstgaps1 && !isNuc(seq1[i])
 		firstgaps2 = firstgaps2 && !isNuc(seq2[i])
 
-		if (isNuc(seq1[i]) || isNuc(seq2[i])) && (!firstgaps1 && !firstgaps2) {
+		if (isNuc(seq1[i]) || isNuc(seq2[i])) && (!firstgaps1 && !firstgaps2) && selectedSites[i] {
 			if seq1[i] != seq2[i] {
 				diff, _ = align.NtIUPACDifference(seq1[i], seq2[i])
 				diffweight = diff * w
